@@ -165,7 +165,9 @@ create_trace_stream(void)
 				rproc.procdir, rthread.tid);
 	}
 
-	rthread.streamfd = open(path, O_WRONLY | O_CREAT, 0644);
+	/* Truncate the stream of a previous run that used the same path, so
+	 * its events do not remain after the ones of this run */
+	rthread.streamfd = open(path, O_WRONLY | O_CREAT | O_TRUNC, 0644);
 
 	if (rthread.streamfd == -1)
 		die("open %s failed:", path);
